@@ -67,6 +67,21 @@ func VHC08Binding() {
 		plist += p
 		body += "print '" + p + "', " + p + "\n" + p + " = 'changed'\n"
 	}
+	// where the parameters are read and written: directly in the function body, or inside a
+	// match-case body / a loop body within it (frames or scopes stacked on the call's own)
+	switch vh.Choose("nested", 3) {
+	case 1:
+		body = "xx = match (1) { zz => {\n" + body + "} }\n"
+	case 2:
+		body = "for (qq in [1]) {\n" + body + "}\n"
+	}
+	// globals with the parameters' names exist already: the parameters shadow them
+	shadow := vh.Choose("shadow", 2) == 1
+	pcheck := "print p0 is unknown, p1 is unknown, p2 is unknown"
+	if shadow {
+		pre = "p0 = 'GP0'; p1 = 'GP1'; p2 = 'GP2'\n" + pre
+		pcheck = "print p0, p1, p2"
+	}
 	retKind := vh.Choose("ret", 4)
 	ret := ""
 	switch retKind {
@@ -79,7 +94,7 @@ func VHC08Binding() {
 	}
 	// a nested call that completed with a return value must not leak into f's own result
 	prog := "function h() { return 'H' }\nfunction f(" + plist + ") {\n" + body + "local = 'L'\nglob = 'G'\ntmp = h()\n" + ret + "\nprint 'fell off', tmp\n}\n" +
-		"{ glob = 'g0'\nx0 = $.a0\n" + pre + "r = f(" + args + ")\nprint 'r', r\nprint 'glob', glob\nprint local is unknown, p0 is unknown, p1 is unknown, p2 is unknown, z is unknown, q is unknown\nprint 'x0', x0, $.a0\n" + post + "}"
+		"{ glob = 'g0'\nx0 = $.a0\n" + pre + "r = f(" + args + ")\nprint 'r', r\nprint 'glob', glob\nprint local is unknown, z is unknown, q is unknown\n" + pcheck + "\nprint 'x0', x0, $.a0\n" + post + "}"
 	out, k := runProg(prog, doc)
 	want := ""
 	for i, p := range params {
@@ -99,7 +114,12 @@ func VHC08Binding() {
 	case 3:
 		want += "r deep\n"
 	}
-	want += "glob G\ntrue true true true true true\n"
+	want += "glob G\ntrue true true\n"
+	if shadow {
+		want += "GP0 GP1 GP2\n" // untouched by the call, whether or not a parameter had the name
+	} else {
+		want += "true true true\n"
+	}
 	if nargs > 0 {
 		a0 := doc["a0"].(string)
 		want += "x0 " + a0 + " " + a0 + "\n"
